@@ -17,6 +17,10 @@ type Case struct {
 	X    *E     `json:"x"`
 	Pos  string `json:"pos"` // where project extend extend-unnamed summarize-agg summarize-key sort top take let join-on
 	Seed int64  `json:"seed"`
+	// NoNulls: only rows without NULLs are judged (join conditions with ==
+	// between $left and $right terms below other operators: the documented
+	// plain '=' differs from '==' exactly on NULL operands).
+	NoNulls bool `json:"nonulls,omitempty"`
 }
 
 func init() {
@@ -78,6 +82,42 @@ func generate(w *mon.W) {
 			}
 		}
 	}
+	// every operator under every operator in every operand slot, without
+	// regard for typing (type errors are observable outcomes): this is where
+	// not(a) in (…), (-a)[i], -(-b), isnull(not(a)), -not(a) live
+	for _, tr := range untypedPairs() {
+		c := &Case{X: tr, Pos: "extend", Seed: 2}
+		w.Do("u|"+Canon(tr), func(r *mon.R) { Check(c, r) })
+	}
+	// comparisons of comparisons in join conditions, every placement of the
+	// two sides (the compiler special-cases == between $left and $right terms)
+	{
+		cmpOps := []string{"==", "!=", "<", ">="}
+		sides := []string{"$left", "$right"}
+		col := func(side, name string) *E { return Name(side, name) }
+		for _, o1 := range cmpOps {
+			for _, o2 := range []string{"==", "!="} {
+				for mask := 0; mask < 8; mask++ {
+					a, b, cc := sides[mask&1], sides[(mask>>1)&1], sides[(mask>>2)&1]
+					for _, shape := range []int{0, 1, 2, 3} {
+						var x *E
+						switch shape {
+						case 0: // A o2 (B o1 C), boolean A
+							x = Bin(o2, col(a, "ba"), Bin(o1, col(b, "ia"), col(cc, "ib")))
+						case 1: // (A o1 B) o2 C
+							x = Bin(o2, Bin(o1, col(a, "ia"), col(b, "ib")), col(cc, "ba"))
+						case 2: // (A o1 B) o2 (C o1 D)
+							x = Bin(o2, Bin(o1, col(a, "ia"), col(b, "ib")), Bin(o1, col(cc, "ia"), col(a, "ib")))
+						default: // not(A o2 (B o1 C)) and D
+							x = Bin("and", Call("not", Bin(o2, col(a, "ba"), Bin(o1, col(b, "ia"), col(cc, "ib")))), col(b, "bb"))
+						}
+						c := &Case{X: x, Pos: "join-on", Seed: 3, NoNulls: true}
+						w.Do("j|"+Canon(x), func(r *mon.R) { Check(c, r) })
+					}
+				}
+			}
+		}
+	}
 	rng := gen.RNG(w.Seed, "c01")
 	n := w.Pick(6_000, 300_000)
 	for i := 0; i < n && !w.Stopped(); i++ {
@@ -90,10 +130,17 @@ func generate(w *mon.W) {
 			g.NoCols = true
 		}
 		x := g.Gen(typeFor(pos, rng), 1+rng.Intn(7))
+		noNulls := false
 		if pos == "join-on" {
-			x = exprpos.Joinify(x, nil, rng)
+			if i%3 == 0 {
+				// every column on a random side: == between the sides may end up anywhere
+				x = freeJoinify(x, rng)
+				noNulls = true
+			} else {
+				x = exprpos.Joinify(x, nil, rng)
+			}
 		}
-		c := &Case{X: x, Pos: pos, Seed: rng.Int63()}
+		c := &Case{X: x, Pos: pos, Seed: rng.Int63(), NoNulls: noNulls}
 		w.Do("r|"+pos+"|"+Canon(x), func(r *mon.R) { Check(c, r) })
 	}
 }
@@ -105,6 +152,24 @@ func Check(c *Case, r *mon.R) {
 	meaning := StripParens(c.X)
 	cols := gen.ColsOf(meaning, nil)
 	rows := gen.Rows(cols, 600, rng)
+	if c.NoNulls {
+		var nn []Row
+		for _, row := range rows {
+			ok := true
+			for _, v := range row {
+				if v.K == val.Null {
+					ok = false
+				}
+			}
+			if ok {
+				nn = append(nn, row)
+			}
+		}
+		rows = nn
+		if len(rows) == 0 {
+			rows = []Row{{}}
+		}
+	}
 	// reference values
 	want := make([]val.V, len(rows))
 	distinct := map[string]bool{}
@@ -224,4 +289,102 @@ func clip(s string, n int) string {
 		return s[:n]
 	}
 	return s
+}
+
+// shape is an operator with its operand slots; leaf(i) gives a default leaf
+// of the nominal type of slot i.
+type shape struct {
+	name  string
+	slots int
+	mk    func(k []*E) *E
+	leaf  []func() *E
+}
+
+func untypedPairs() []*E {
+	i := func() *E { return Name("ia") }
+	i2 := func() *E { return Name("ib") }
+	st := func() *E { return Name("sa") }
+	b := func() *E { return Name("ba") }
+	m := func() *E { return Name("ma") }
+	one := func() *E { return Num("1") }
+	var shapes []shape
+	for _, op := range []string{"or", "and"} {
+		op := op
+		shapes = append(shapes, shape{op, 2, func(k []*E) *E { return Bin(op, k[0], k[1]) }, []func() *E{b, func() *E { return Name("bb") }}})
+	}
+	for _, op := range []string{"==", "!=", "<", "<=", ">", ">=", "+", "-", "*", "/", "%"} {
+		op := op
+		shapes = append(shapes, shape{op, 2, func(k []*E) *E { return Bin(op, k[0], k[1]) }, []func() *E{i, i2}})
+	}
+	for _, op := range []string{"=~", "!~"} {
+		op := op
+		shapes = append(shapes, shape{op, 2, func(k []*E) *E { return Bin(op, k[0], k[1]) }, []func() *E{st, func() *E { return Name("sb") }}})
+	}
+	shapes = append(shapes,
+		shape{"in", 3, func(k []*E) *E { return In(k[0], k[1], k[2]) }, []func() *E{i, one, i2}},
+		shape{"neg", 1, func(k []*E) *E { return Un("-", k[0]) }, []func() *E{i}},
+		shape{"pos", 1, func(k []*E) *E { return Un("+", k[0]) }, []func() *E{i}},
+		shape{"idx", 2, func(k []*E) *E { return Idx(k[0], k[1]) }, []func() *E{m, one}},
+		shape{"not", 1, func(k []*E) *E { return Call("not", k[0]) }, []func() *E{b}},
+		shape{"isnull", 1, func(k []*E) *E { return Call("isnull", k[0]) }, []func() *E{i}},
+		shape{"isnotnull", 1, func(k []*E) *E { return Call("isnotnull", k[0]) }, []func() *E{i}},
+		shape{"iff", 3, func(k []*E) *E { return Call("iff", k[0], k[1], k[2]) }, []func() *E{b, i, i2}},
+		shape{"strcat", 2, func(k []*E) *E { return Call("strcat", k[0], k[1]) }, []func() *E{st, func() *E { return Name("sb") }}},
+		shape{"strcat1", 1, func(k []*E) *E { return Call("strcat", k[0]) }, []func() *E{st}},
+		shape{"tolower", 1, func(k []*E) *E { return Call("tolower", k[0]) }, []func() *E{st}},
+		shape{"toupper", 1, func(k []*E) *E { return Call("toupper", k[0]) }, []func() *E{st}},
+		shape{"countif", 1, func(k []*E) *E { return Call("countif", k[0]) }, []func() *E{b}},
+		shape{"call", 2, func(k []*E) *E { return Call("fi", k[0], k[1]) }, []func() *E{i, st}},
+		shape{"now", 0, func(k []*E) *E { return Call("now") }, nil},
+		shape{"count", 0, func(k []*E) *E { return Call("count") }, nil},
+	)
+	build := func(sh shape, slot int, child *E) *E {
+		k := make([]*E, sh.slots)
+		for j := range k {
+			if j == slot {
+				k[j] = child
+			} else {
+				k[j] = sh.leaf[j]()
+			}
+		}
+		return sh.mk(k)
+	}
+	var out []*E
+	for _, outer := range shapes {
+		for slot := 0; slot < outer.slots; slot++ {
+			for _, inner := range shapes {
+				child := build(inner, -1, nil)
+				out = append(out, build(outer, slot, child))
+				// and one more level for the unary-ish outers
+				if outer.slots == 1 {
+					for _, in2 := range shapes {
+						if in2.slots >= 1 {
+							out = append(out, build(outer, 0, build(inner, 0, build(in2, -1, nil))))
+						}
+					}
+				}
+			}
+		}
+	}
+	return out
+}
+
+// freeJoinify qualifies every column with a random side.
+func freeJoinify(x *E, rng interface{ Intn(int) int }) *E {
+	c := *x
+	if x.K == "name" {
+		if len(x.Parts) == 1 && !x.Parts[0].Quoted {
+			n := x.Parts[0].Name
+			if n == "true" || n == "false" || n == "null" {
+				return &c
+			}
+		}
+		c.Parts = append([]Ident{{Name: []string{"$left", "$right"}[rng.Intn(2)]}}, x.Parts...)
+		return &c
+	}
+	c.Kids = nil
+	for _, k := range x.Kids {
+		c.Kids = append(c.Kids, freeJoinify(k, rng))
+	}
+	return &c
 }
